@@ -116,6 +116,19 @@ CaseStep ==
                 /\ Judge(c, e, Conforms(c, ObsOf(e)), FALSE)
   /\ pos' = pos + 1
 
+\* the case just judged, sent once more without a Content-Length (chunked transfer encoding) from the same
+\* state: transport framing is not part of a request's meaning, the same catalogue entry judges it
+ChunkStep ==
+  /\ IsEvent("CaseChunked") /\ l > 1
+  /\ LET e == Trace[l]
+     IN  /\ e.cid \in 1..NCases
+         /\ e.pre = cur /\ cur' = e.post
+         /\ Hd.only = 0 => (pos > 1 /\ e.cid = Mine(pos - 1))
+         /\ LET c == Catalogue[e.cid]
+            IN  /\ Descr(c) = <<e.ep, e.var, e.p, e.k, e.a, e.s, e.enc>>
+                /\ Judge(c, e, Conforms(c, ObsOf(e)), FALSE)
+  /\ UNCHANGED pos
+
 RandStep ==
   /\ IsEvent("Rand") /\ l > 1
   /\ LET e == Trace[l]
@@ -137,7 +150,7 @@ EndStep == /\ IsEvent("End") /\ l = Len(Trace)
            /\ Trace[l].rands = Hd.rand
            /\ UNCHANGED <<pos, cur, kf>>
 
-TraceNext == Begin \/ CaseStep \/ RandStep \/ ResetStep \/ EndStep
+TraceNext == Begin \/ CaseStep \/ ChunkStep \/ RandStep \/ ResetStep \/ EndStep
 TraceSpec == TraceInit /\ [][TraceNext]_vars
 
 WF == l \in 1..(Len(Trace) + 1) /\ pos >= 1
